@@ -1,4 +1,278 @@
-import PieModel.Build.Pie
+/-
+Property C19, part 1: an aborted build leaves the `Pie` instance usable.
+
+Every function of the build model returns the session state also when the build aborts (a Rust
+panic unwinds and leaves `Pie` as it is at that point).  Here it is proved that *every* such
+state — whatever the result, `.ok` or `.abort`, for every fuel, every checker semantics `sem`
+and every program table `body` — has a well-formed store (`Store.WF`: graph invariant, exact
+lookup tables, typed edges; `PieModel/Build/StoreWF.lean`) and is a well-formed session state
+(`SessWF`: additionally the executing task and all queued nodes are task nodes).  Hence after
+any history of external changes, top-down sessions and bottom-up builds, aborted or not, the
+store is well-formed and a new session can be started on it.
+
+Property statements only; the proofs are in `PieModel/Build/StoreLemmas.lean` (store
+operations), `SessWF.lean` (session primitives), `SessWFTopDown.lean`, `SessWFBottomUp.lean`.
+-/
+import PieModel.Build.SessWFBottomUp
+import PieModel.Build.StdSem
+
 namespace PieModel
-theorem C19_placeholder : True := trivial
+
+variable (sem : Sem) (body : Nat → Prog)
+
+/-! ### the `Pie` instance -/
+
+/-- The empty store is well-formed. -/
+theorem C19_store_wf_empty : ({} : Store).WF := Store.WF.empty
+
+/-- A new session on a well-formed `Pie` is a well-formed session. -/
+theorem C19_newSession_wf (p : PieSt) (h : p.store.WF) : SessWF p.newSession :=
+  ⟨h, fun _ hn => (nomatch hn), fun _ hn => (nomatch hn)⟩
+
+/-- Dropping a well-formed session (normally or by unwinding) leaves a well-formed store. -/
+theorem C19_toPie_wf (s : Sess) (h : SessWF s) : s.toPie.store.WF := h.store
+
+/-- External changes of the resource state do not touch the store. -/
+theorem C19_setContent_store (p : PieSt) (r : Nat) (v : Option Int) :
+    (p.setContent r v).store = p.store := by cases v <;> rfl
+
+/-! ### store operations (each preserves `Store.WF`) -/
+
+theorem C19_store_ops_wf (st : Store) (h : st.WF) :
+    (∀ t, (st.getOrCreateTaskNode t).1.WF) ∧
+    (∀ r, (st.getOrCreateResNode r).1.WF) ∧
+    (∀ n o, (st.setTaskOutput n o).WF) ∧
+    (∀ n, (st.resetTask n).WF) ∧
+    (∀ src dst d, (∃ t, st.taskOf src = some t) → st.DepOK d dst →
+      (st.addDependency src dst d).1.WF) ∧
+    (∀ src dst d st', st.setDependency src dst d = some st' → st.DepOK d dst → st'.WF) :=
+  ⟨h.getOrCreateTaskNode, h.getOrCreateResNode, h.setTaskOutput, h.resetTask,
+    fun _ _ _ hs hd => h.addDependency hs hd, fun _ _ _ _ hs hd => Store.WF.setDependency hs h hd⟩
+
+/-- Consequences of `Store.WF` used by the build: resource nodes have no outgoing edges, so
+a task → resource dependency can never be rejected as a cycle. -/
+theorem C19_task_to_res_never_cyclic (st : Store) (h : st.WF) (src dst : Nat) (d : Dep) (t r : Nat)
+    (hs : st.taskOf src = some t) (hd : st.resOf dst = some r) :
+    (st.addDependency src dst d).2 = .ok := Store.addDependency_to_res_ok h src dst d hs hd
+
+/-! ### session primitives -/
+
+/-- `read`, `write`, `written_to`: well-formed in, well-formed out, whatever the result. -/
+theorem C19_primitives_wf (s : Sess) (h : SessWF s) (r c : Nat) (v : Option Int) :
+    SessWF (doRead sem s r c).1 ∧ SessWF (doWrite sem s r c v).1 ∧
+      SessWF (doWrote sem s r c v).1 :=
+  ⟨(doRead_ext sem h r c).wf, (doWrite_ext sem h r c v).wf, (doWrote_ext sem h r c v).wf⟩
+
+/-- `reserve_require_dependency` towards a task node. -/
+theorem C19_reserveRequire_wf (s : Sess) (h : SessWF s) (dst : Nat)
+    (hd : ∃ t, s.store.taskOf dst = some t) : SessWF (reserveRequire s dst).1 :=
+  (reserveRequire_ext h hd).wf
+
+/-- `update_require_dependency` towards the node of `t`. -/
+theorem C19_updateRequire_wf (s : Sess) (h : SessWF s) (dst t c : Nat) (stamp : Stamp)
+    (hd : s.store.taskOf dst = some t) : SessWF (updateRequire s dst t c stamp).1 :=
+  (updateRequire_ext h c stamp hd).wf
+
+/-! ### top-down -/
+
+/-- The five mutually recursive functions of the top-down context. -/
+theorem C19_topdown_wf (fuel : Nat) (s : Sess) (h : SessWF s) :
+    (∀ t c, SessWF (tdRequire sem body fuel s t c).1) ∧
+    (∀ t, SessWF (tdMake sem body fuel s t).1) ∧
+    (∀ node, SessWF (tdCheck sem body fuel s node).1) ∧
+    (∀ ds, SessWF (tdCheckDeps sem body fuel s ds).1) ∧
+    (∀ p, SessWF (tdRun sem body fuel s p).1) :=
+  ⟨fun t c => (tdRequire_ext sem body fuel h t c).wf, fun t => (tdMake_ext sem body fuel h t).wf,
+    fun n => (tdCheck_ext sem body fuel h n).wf, fun ds => (tdCheckDeps_ext sem body fuel h ds).wf,
+    fun p => (tdRun_ext sem body fuel h p).wf⟩
+
+/-- `Session::require`. -/
+theorem C19_sessionRequire_wf (fuel : Nat) (s : Sess) (h : SessWF s) (t : Nat) :
+    SessWF (sessionRequire sem body fuel s t).1 := (sessionRequire_ext sem body fuel h t).wf
+
+theorem C19_requireAll_wf (fuel : Nat) (s : Sess) (h : SessWF s) (ts : List Nat) :
+    SessWF (requireAll sem body fuel s ts).1 := (requireAll_ext sem body fuel ts h).wf
+
+/-! ### bottom-up -/
+
+theorem C19_scheduling_wf (s : Sess) (h : SessWF s) :
+    (∀ tnode d, SessWF (trySchedule sem s tnode d)) ∧
+    (∀ r, SessWF (scheduleAffectedBy sem s r)) ∧
+    (∀ node t out, SessWF (scheduleAfterExec sem s node t out)) :=
+  ⟨fun n d => (trySchedule_ext sem h n d).wf, fun r => (scheduleAffectedBy_ext sem h r).wf,
+    fun n t o => (scheduleAfterExec_ext sem h n t o).wf⟩
+
+/-- The six mutually recursive functions of the bottom-up context (`buMake`/`buExec` are called
+with a task node). -/
+theorem C19_bottomup_wf (fuel : Nat) (s : Sess) (h : SessWF s) :
+    (∀ t c, SessWF (buRequire sem body fuel s t c).1) ∧
+    (∀ t node, (∃ t', s.store.taskOf node = some t') → SessWF (buMake sem body fuel s t node).1) ∧
+    (∀ t node, (∃ t', s.store.taskOf node = some t') → SessWF (buExec sem body fuel s t node).1) ∧
+    (∀ node, SessWF (buExecAndSchedule sem body fuel s node).1) ∧
+    (∀ src, SessWF (buRequireNow sem body fuel s src).1) ∧
+    (∀ p, SessWF (buRun sem body fuel s p).1) :=
+  ⟨fun t c => (buRequire_ext sem body fuel h t c).wf,
+    fun t _ hn => (buMake_ext sem body fuel h t hn).wf,
+    fun t _ hn => (buExec_ext sem body fuel h t hn).wf,
+    fun n => (buExecAndSchedule_ext sem body fuel h n).wf,
+    fun n => (buRequireNow_ext sem body fuel h n).wf,
+    fun p => (buRun_ext sem body fuel h p).wf⟩
+
+theorem C19_buExecuteScheduled_wf (fuel : Nat) (s : Sess) (h : SessWF s) :
+    SessWF (buExecuteScheduled sem body fuel s).1 := (buExecuteScheduled_ext sem body fuel h).wf
+
+theorem C19_updateAffectedTasks_wf (fuel : Nat) (s : Sess) (h : SessWF s) :
+    SessWF (updateAffectedTasks sem body fuel s).1 := (updateAffectedTasks_ext sem body fuel h).wf
+
+theorem C19_bottomUpBuild_wf (fuel : Nat) (s : Sess) (h : SessWF s) (changed : List Nat) :
+    SessWF (bottomUpBuild sem body fuel s changed).1 := (bottomUpBuild_ext sem body fuel h changed).wf
+
+/-! ### nothing is forgotten: the tables only grow -/
+
+/-- Across a whole session (aborted or not) every registered task and resource keeps its node. -/
+theorem C19_tables_monotone (fuel : Nat) (s : Sess) (h : SessWF s) (changed roots : List Nat) :
+    let s₁ := (bottomUpBuild sem body fuel s changed).1
+    let s₂ := (requireAll sem body fuel s₁ roots).1
+    (∀ t n, aget s.store.taskNode t = some n → aget s₂.store.taskNode t = some n) ∧
+    (∀ r n, aget s.store.resNode r = some n → aget s₂.store.resNode r = some n) := by
+  intro s₁ s₂
+  have e1 := bottomUpBuild_ext sem body fuel h changed
+  have e2 := e1.trans (requireAll_ext sem body fuel roots e1.wf)
+  exact ⟨fun t n ht => e2.le.taskNode h.store e2.wf.store ht,
+    fun r n hr => e2.le.resNode h.store e2.wf.store hr⟩
+
+/-! ### abort points -/
+
+/-- Every abort point of a top-down session leaves a store on which a new, well-formed session
+can be started. -/
+theorem C19_abort_topdown_usable (fuel : Nat) (p : PieSt) (h : p.store.WF) (roots : List Nat)
+    (s' : Sess) (a : Abort) (hr : requireAll sem body fuel p.newSession roots = (s', .abort a)) :
+    s'.toPie.store.WF ∧ SessWF s'.toPie.newSession := by
+  have := ((requireAll_ext sem body fuel roots (C19_newSession_wf p h)).out hr).wf
+  exact ⟨this.store, C19_newSession_wf _ this.store⟩
+
+/-- Same for a bottom-up build. -/
+theorem C19_abort_bottomup_usable (fuel : Nat) (p : PieSt) (h : p.store.WF) (changed : List Nat)
+    (s' : Sess) (a : Abort)
+    (hr : bottomUpBuild sem body fuel p.newSession changed = (s', .abort a)) :
+    s'.toPie.store.WF ∧ SessWF s'.toPie.newSession := by
+  have := ((bottomUpBuild_ext sem body fuel (C19_newSession_wf p h) changed).out hr).wf
+  exact ⟨this.store, C19_newSession_wf _ this.store⟩
+
+/-! ### histories -/
+
+/-- One step of the life of a `Pie` instance. -/
+inductive HStep
+  /-- external change of resource `r` through `Pie::resource_state_mut` -/
+  | change (r : Nat) (v : Option Int)
+  /-- a top-down session requiring `roots` in order -/
+  | session (roots : List Nat)
+  /-- a session with a bottom-up build for the `changed` resources followed by requiring `roots` -/
+  | bottomUp (changed : List Nat) (roots : List Nat)
+
+/-- Run one step.  An aborted session simply ends: the state at the abort point is what `Pie`
+keeps (`Sess.toPie`). -/
+def runStep (fuel : Nat) (p : PieSt) : HStep → PieSt
+  | .change r v => p.setContent r v
+  | .session roots => (requireAll sem body fuel p.newSession roots).1.toPie
+  | .bottomUp changed roots =>
+    match bottomUpBuild sem body fuel p.newSession changed with
+    | (s, .abort _) => s.toPie
+    | (s, .ok ()) => (requireAll sem body fuel s roots).1.toPie
+
+/-- Run a history from the empty `Pie`. -/
+def runHistory (fuel : Nat) (steps : List HStep) : PieSt :=
+  steps.foldl (runStep sem body fuel) {}
+
+theorem C19_runStep_wf (fuel : Nat) (p : PieSt) (h : p.store.WF) (st : HStep) :
+    (runStep sem body fuel p st).store.WF := by
+  cases st with
+  | change r v => unfold runStep; rw [C19_setContent_store]; exact h
+  | session roots => exact (C19_requireAll_wf sem body fuel _ (C19_newSession_wf p h) roots).store
+  | bottomUp changed roots =>
+    show (match bottomUpBuild sem body fuel p.newSession changed with
+      | (s, .abort _) => s.toPie
+      | (s, .ok ()) => (requireAll sem body fuel s roots).1.toPie).store.WF
+    have e1 := bottomUpBuild_ext sem body fuel (C19_newSession_wf p h) changed
+    split
+    next s a heq => exact (e1.out heq).wf.store
+    next s heq => exact (C19_requireAll_wf sem body fuel _ (e1.out heq).wf roots).store
+
+/-- **C19 (store part).** After every history — external changes, top-down sessions, bottom-up
+builds, any of them possibly aborted at any point — the store is well-formed; for every fuel,
+checker semantics and program table. -/
+theorem C19_store_wf_history (fuel : Nat) (steps : List HStep) :
+    (runHistory sem body fuel steps).store.WF := by
+  unfold runHistory
+  have key : ∀ (l : List HStep) (p : PieSt), p.store.WF →
+      (l.foldl (runStep sem body fuel) p).store.WF := by
+    intro l
+    induction l with
+    | nil => intro p h; exact h
+    | cons st l ih => intro p h; exact ih _ (C19_runStep_wf sem body fuel p h st)
+  exact key steps {} Store.WF.empty
+
+/-- ... so a new session can always be started. -/
+theorem C19_history_usable (fuel : Nat) (steps : List HStep) :
+    SessWF (runHistory sem body fuel steps).newSession :=
+  C19_newSession_wf _ (C19_store_wf_history sem body fuel steps)
+
+/-- In particular the dependency graph after any history is acyclic. -/
+theorem C19_history_acyclic (fuel : Nat) (steps : List HStep) (n : Nat) :
+    ¬ (runHistory sem body fuel steps).store.g.Reach n n :=
+  (C19_store_wf_history sem body fuel steps).inv.acyclic n
+
+/-! ### non-vacuity: an abort followed by a successful session
+
+Task 0 requires task 1; task 1 reads resource 0 and, if it contains `1`, requires task 0
+(a cycle), else returns 5. -/
+
+def c19Body : Nat → Prog
+  | 0 => .req 1 0 (fun o => .ret (o + 1))
+  | 1 => .read 0 0 (fun x => match x with
+      | .ok (some 1) => .req 0 0 (fun o => .ret o)
+      | _ => .ret 5)
+  | _ => .ret 0
+
+/-- The verdict of a top-down session on `p`: `none` = ok. -/
+def c19Verdict (p : PieSt) (roots : List Nat) : Option Abort × Option (List Int) :=
+  match requireAll stdSem c19Body 50 p.newSession roots with
+  | (_, .abort a) => (some a, none)
+  | (_, .ok os) => (none, some os)
+
+def c19P1 : PieSt := runHistory stdSem c19Body 50 [.change 0 (some 1)]
+def c19P2 : PieSt := runHistory stdSem c19Body 50 [.change 0 (some 1), .session [0]]
+def c19P3 : PieSt := runHistory stdSem c19Body 50 [.change 0 (some 1), .session [0], .change 0 (some 2)]
+def c19P4 : PieSt :=
+  runHistory stdSem c19Body 50 [.change 0 (some 1), .session [0], .change 0 (some 2), .session [0]]
+
+/-- With resource 0 = 1 the session aborts with a cyclic dependency ... -/
+example : c19Verdict c19P1 [0] = (some .cyclic, none) := by with_unfolding_all decide
+
+/-- ... the aborted session leaves both task nodes and the resource node in the store, task 0
+executing (no output), with the partial dependencies recorded ... -/
+example : c19P2.store.g.len = 3 ∧ c19P2.store.taskNode = [(0, 0), (1, 1)] ∧
+    c19P2.store.resNode = [(0, 2)] ∧ c19P2.store.taskOutput 0 = none ∧
+    c19P2.store.depsFrom 0 = [.reserved] := by with_unfolding_all decide
+
+/-- ... which is well-formed (by the theorem) ... -/
+example : c19P2.store.WF := C19_store_wf_history stdSem c19Body 50 _
+
+/-- ... and after changing the resource, the next session on the same `Pie` succeeds. -/
+example : c19Verdict c19P3 [0] = (none, some [6]) := by with_unfolding_all decide
+
+/-- A bottom-up build that aborts (changing resource 0 back to 1 makes task 1 require its own
+requirer), followed by a successful top-down session. -/
+def c19Verdict' (p : PieSt) (changed : List Nat) : Option Abort :=
+  match bottomUpBuild stdSem c19Body 50 p.newSession changed with
+  | (_, .abort a) => some a
+  | (_, .ok ()) => none
+
+def c19P5 : PieSt := runStep stdSem c19Body 50 c19P4 (.change 0 (some 1))
+def c19P6 : PieSt := runStep stdSem c19Body 50 c19P5 (.bottomUp [0] [])
+def c19P7 : PieSt := runStep stdSem c19Body 50 c19P6 (.change 0 (some 3))
+
+example : c19Verdict' c19P5 [0] = some .cyclic := by with_unfolding_all decide
+example : c19Verdict c19P7 [0] = (none, some [6]) := by with_unfolding_all decide
+
 end PieModel
